@@ -84,7 +84,7 @@ SEEDS = {
  'C18-4': ('/tmp/wt2_C18', 2, 'C18', 'a numeric sheet cell whose value is not exactly representable in binary (10.1)', {'C18': ['no-binary-float-expansion']}, 'caught after rule R18e (no from_f64_retain) was added'),
  'C19-3': ('/tmp/wt2_C19', 1, 'C19', 'an option-exercise confirmation among the inputs (sale dates pre-filled)', {'C19': ['benefit-with-sold-shares-is-always-matched']}, ''),
  'C19-4': ('/tmp/wt2_C19', 2, 'C19', 'two equal sales on one day in the post-2023 confirmation layout', {'C19': ['every-parsed-entry-is-collected']}, 'caught after rule R19g (collected entries are not de-duplicated or conditional on what was collected) was added'),
- 'C20-3': ('/tmp/wt2_C20', 1, 'C20', 'a hint group consisting only of pages named by earlier groups', {'C20': ['queue-is-the-whole-group', 'ends-only-when-groups-exhausted-or-load-failed']}, 'caught after rule R20e was added'),
+ 'C20-3': ('/tmp/wt2_C20', 1, 'C20', 'a hint group consisting only of pages named by earlier groups', {'C20': ['queue-is-the-whole-group']}, 'caught after rule R20e was added'),
  'C20-4': ('/tmp/wt2_C20', 2, 'C20', 'the page carrying the "Current month" header is also the table page (one-page statement)', {'C20': ['every-page-is-tested-for-the-table']}, 'caught after rule R20f (no path to the next page ahead of the marker test) was added'),
  # ---- third round (fresh agents; asked for plausible refactorings / optimisations / clean-ups, two cooperating edits, less central paths)
  'C01-5': ('/tmp/wt3_C01', 1, 'C01', 'a non-CAD trade with commission currency CAD and an empty commission-rate cell', {'C01': ['R1e|portfolio::model::tx::get_valid_exchange_rate']}, ''),
